@@ -52,6 +52,16 @@ CHECKS = {
          "with sentinels detecting writes to the output variable on failure."),
    note=TB + "Float→integer casts outside the target range are undefined in C and are excluded on both sides ('unspec').",
    technique='equational theorems over all values in Lean 4 + differential correspondence on the boundary grid', ref='§5 C07'),
+ 'C16': dict(
+   text=("Conservation theorems: with a destructor registered, every operation (C16_conservation) and every read "
+         "(C16_conservation_read, by an invariant over the parser loop) logs exactly the hooks that leave the tree — as a permutation "
+         "equation between the hooks before, the destructor log and the hooks after; hence C16_once (no hook logged twice), C16_alive "
+         "(never for a setting still alive), C16_nodup_preserved, C16_destroy (everything released), C16_children_first (post-order), "
+         "C16_removeElem, C16_setHook_silent, C16_no_destructor. All histories, all trees. The model's destructor log is compared with the "
+         "real destructor calls per operation; the harness overwrites the caller's buffers after set_string/set_include_dir and runs under "
+         "ASan/LSan, which is what observes the copy/lifetime part of the property on the real code."),
+   note=TB + "String-handle lifetime (strings handed out stay valid until changed) is observed by ASan on the implementation, not modelled.",
+   technique='conservation law (multiset of live hooks) proved in Lean 4 by induction, including the parser loop; differential correspondence on destructor logs', ref='§5 C16'),
  'C19': dict(
    text=("Theorems: C19_bytes (config_write's bytes are exactly the rendering of an item sequence), C19_tokens_invariant (any two "
          "presentation settings give the same token sequence up to white space, ';', '='/':' and number spelling), C19_member_layout + "
@@ -62,7 +72,7 @@ CHECKS = {
    technique='structural-induction theorems about the writer model in Lean 4 + byte-exact differential correspondence', ref='§5 C19'),
 }
 
-READY = ['C04', 'C06', 'C07', 'C19']
+READY = ['C04', 'C06', 'C07', 'C16', 'C19']
 NOT_YET = "check under construction in this round (model part exists, no registered check yet); see DESIGN.md §9"
 
 def main():
